@@ -40,6 +40,14 @@ ConcOfLen(n) == IF n = 0 THEN {<< >>}
                 ELSE {p \in [1..n -> UNION {Conc(i) : i \in 1..n}] : \A i \in 1..n : p[i] \in Conc(i)}
 Universe == UNION {ConcOfLen(n) : n \in 0..MaxLen}
 
+\* Queries (PathMatchesQuery): the element NAME may be the wildcard "*" as well ("Only the query
+\* may contain wildcard name or keys"); ComparePaths knows no name wildcard, so these paths
+\* are a family of their own (Mode = "query": a concrete data path against every query).
+QElems(i) == [n : Names \cup {"*"}, k : [K(i) -> KVals \cup {"*", "-"}]]
+QPathsOfLen(n) == IF n = 0 THEN {<< >>}
+                  ELSE {p \in [1..n -> UNION {QElems(i) : i \in 1..n}] : \A i \in 1..n : p[i] \in QElems(i)}
+QPaths == UNION {QPathsOfLen(n) : n \in 0..MaxLen}
+
 \* One state per ordered pair.  The first path is chosen in the initial state, the second by
 \* the single step (so that TLC's workers share the pairs).
 VARIABLES A, B, oa, ob, chosen
@@ -50,17 +58,20 @@ ShortPaths == {p \in Paths : Len(p) <= 1}
 Init ==
   /\ B = << >> /\ ob = "" /\ chosen = FALSE
   /\ IF Mode = "pairs" THEN A \in Paths /\ oa = ""
+     ELSE IF Mode = "query" THEN A \in Universe /\ oa = ""
      ELSE A \in ShortPaths /\ oa \in Origins
 
 Next ==
   /\ ~chosen /\ chosen' = TRUE
   /\ UNCHANGED <<A, oa>>
   /\ IF Mode = "pairs" THEN B' \in Paths /\ ob' = ""
+     ELSE IF Mode = "query" THEN B' \in QPaths /\ ob' = ""
      ELSE B' \in ShortPaths /\ ob' \in Origins
 
 Spec == Init /\ [][Next]_vars
 
 Chosen == chosen
+ChosenRel == chosen /\ Mode # "query"   \* the ComparePaths laws: no wildcard names
 
 ----------------------------------------------------------------------------
 (* Denotation *)
@@ -112,10 +123,10 @@ RelComp(a, b, x, y) ==
            lenRel == IF Len(a) > Len(b) THEN {"Subset"} ELSE IF Len(a) < Len(b) THEN {"Superset"} ELSE {}
        IN Combine({ElemRel(a[x1], b[x1]) : x1 \in 1..m} \cup lenRel)
 
-AlgorithmMatchesDenotation == Chosen => RelComp(A, B, oa, ob) = RelDen(A, B, oa, ob)
+AlgorithmMatchesDenotation == ChosenRel => RelComp(A, B, oa, ob) = RelDen(A, B, oa, ob)
 
 Swap(r) == CASE r = "Subset" -> "Superset" [] r = "Superset" -> "Subset" [] OTHER -> r
-SwapSymmetry == Chosen => RelDen(B, A, ob, oa) = Swap(RelDen(A, B, oa, ob))
+SwapSymmetry == ChosenRel => RelDen(B, A, ob, oa) = Swap(RelDen(A, B, oa, ob))
 
 ----------------------------------------------------------------------------
 (* The helper functions on the same denotation.  IsConcrete(p): every key   *)
@@ -141,10 +152,25 @@ ElemPrefix(p, pre) == Len(p) >= Len(pre) /\ \A x \in 1..Len(pre) : ElemSame(p[x]
 RECURSIVE LCP(_, _, _)
 LCP(a, b, n) == IF n < Len(a) /\ n < Len(b) /\ ElemSame(a[n + 1], b[n + 1]) THEN LCP(a, b, n + 1) ELSE n
 
-HelperLaws == Chosen =>
+HelperLaws == ChosenRel =>
   /\ (ElemPrefix(A, B) => RelDen(A, B, "", "") \in {"Equal", "Subset"})      \* a path below its prefix
   /\ (IsConcrete(A) /\ MatchesQuery(A, B, "", "") => RelDen(A, B, "", "") \in {"Equal", "Subset"})
   /\ LCP(A, B, 0) = LCP(B, A, 0)
+
+----------------------------------------------------------------------------
+(* Queries with wildcard names.  QDen(q): the concrete paths at or below a  *)
+(* query; a "*" name matches any name but the element's keys still          *)
+(* constrain the entry.  QueryLaws states the definition a second way: a    *)
+(* wildcard-name query denotes the union of its named instantiations.       *)
+
+QMatch(e, c) == (e.n = Star \/ e.n = c.n) /\ \A key \in DOMAIN e.k : Wild(e.k[key]) \/ e.k[key] = c.k[key]
+QDen(q) == {c \in Universe : Len(c) >= Len(q) /\ \A x \in 1..Len(q) : QMatch(q[x], c[x])}
+
+Instances(q) == {r \in PathsOfLen(Len(q)) : \A x \in 1..Len(q) : r[x].k = q[x].k /\ (q[x].n # Star => r[x].n = q[x].n)}
+
+QueryLaws == (Chosen /\ Mode = "query") =>
+  /\ (A \in QDen(B)) = (\E r \in Instances(B) : A \in Den(r))
+  /\ ((\A x \in 1..Len(B) : B[x].n # Star) => (A \in QDen(B)) = MatchesQuery(A, B, "", ""))
 
 ----------------------------------------------------------------------------
 (* Emission: one line per pair; paths in a compact string form              *)
@@ -162,7 +188,8 @@ EncPath(p) == IF p = << >> THEN "-" ELSE JoinStr([x \in 1..Len(p) |-> EncElem(p[
 B01(x) == IF x THEN "1" ELSE "0"
 
 Emit ==
-  Chosen => PrintT("REL " \o EncPath(A) \o "|" \o EncPath(B) \o "|" \o oa \o "|" \o ob \o "|" \o RelDen(A, B, oa, ob) \o "|"
+  Chosen => IF Mode = "query" THEN PrintT("QRY " \o EncPath(A) \o "|" \o EncPath(B) \o "|" \o B01(A \in QDen(B)))
+  ELSE PrintT("REL " \o EncPath(A) \o "|" \o EncPath(B) \o "|" \o oa \o "|" \o ob \o "|" \o RelDen(A, B, oa, ob) \o "|"
                    \o B01(IsConcrete(A)) \o B01(IsConcrete(A) /\ MatchesQuery(A, B, oa, ob)) \o B01(ElemPrefix(A, B))
                    \o B01(StarVsAbsent(A, B)) \o ToString(LCP(A, B, 0)))
 
